@@ -17,8 +17,21 @@ spec -> code: TLC (specs/MC_C19.tla) enumerates *every history* of at most 5 act
               input hashes, POST/PUT/DELETE/HEAD), extensions cover pre-rendered HTML finished
               later (render_dependencies=False ... render_dependencies()) and classes redefined
               under the same import path.
-code -> spec: seeded random histories (20-40 events, 3-6 classes, arbitrary requests) are recorded
-              on the real library and validated in one TLC batch by specs/Trace_C19.tla.
+              Configuration U: the *URL configuration* is part of the machine's state
+              (ScriptEndpoint!url, action SetUrl): histories in which the script prefix
+              (django.urls.set_script_prefix, what WSGIHandler does with SCRIPT_NAME) and / or the
+              active URLconf (override_settings(ROOT_URLCONF=...) in one half of the walks, per-request
+              request.urlconf / set_urlconf in the other half; URLconfs that include
+              django_components.urls at the root, under tenant/ and under t/eu/) CHANGE between the
+              renders of one process.  The specification says which configuration every emitted URL
+              is addressed to (eloc = the one active at that render); the replay compares that with
+              the path of the URL and makes every request the way the front server would under the
+              active configuration (only paths below the script prefix reach the application, with
+              SCRIPT_NAME / PATH_INFO split; routed by the active URLconf).
+code -> spec: seeded random histories (20-40 events, 3-6 classes, arbitrary requests, changes of the
+              URL configuration over 2 script prefixes x 3 URLconfs, requests addressed to the active
+              or to another configuration) are recorded on the real library and validated in one
+              TLC batch by specs/Trace_C19.tla.
 
 What is compared, and what is not (rule 1):
 * body: `response.content.decode().strip() == code.strip()` - the library stores `script.strip()`;
@@ -33,6 +46,12 @@ What is compared, and what is not (rule 1):
   fragment: listed to load, only for non-blank Component.js/css); document pages always have
   <head>/<body> or the dependency placeholder tags (without them the library drops the dependencies:
   C08's subject), class names are ASCII (finding 11 belongs to C04).
+* where the endpoint lives under a configuration is taken from the docs (`components/cache/` below the
+  place where the project's URLconf includes django_components.urls, below the script prefix), not from
+  the library's URL builder; a path addressed to another configuration than the active one is 404
+  (Django's resolver; for a path outside SCRIPT_NAME the harness answers 404 itself: such a request
+  never reaches the application).  HTML pre-rendered under one configuration and finished under another
+  is addressed to the one active at the finishing call (that call emits the URLs).
 * evictions *during* one render call (a cache too small for one page) are not modelled.
 * pages containing a class with variables are not pre-rendered (a variables script cannot be
   regenerated from kept HTML; the feature is marked TODO).
@@ -67,16 +86,52 @@ ALL_DEVS = [DEV_FINISH, DEV_STALE, DEV_KIND]
 BLANKS = [None, "", "   ", "\n\t \n"]          # "without js/css": absent, empty or whitespace only
 PADS = [("", ""), ("\n    ", "\n  "), ("  ", ""), ("", "\n")]
 
+# URL configurations "<script prefix>/<URLconf>" (opaque values in the specification)
+URL_SPS = {"none": "/", "app": "/app/"}
+URL_MTS = {"root": ("django_components.urls", ""),            # ROOT_URLCONF of vf.boot: components/ at the root
+           "tenant": ("vf_c19_urls_tenant", "tenant/"),        # path("tenant/", include("django_components.urls"))
+           "deep": ("vf_c19_urls_deep", "t/eu/")}              # two nested includes
+DEFAULT_URL = "none/root"
+ALL_URLS = [f"{sp}/{mt}" for sp in URL_SPS for mt in URL_MTS]
+_REQUEST_URLCONF: Optional[str] = None       # what the per-request middleware puts into request.urlconf
+
+
+def urlconf_middleware(get_response):
+    """The multi-tenant pattern: the URLconf of a request is chosen per request."""
+    def mw(request):
+        if _REQUEST_URLCONF is not None:
+            request.urlconf = _REQUEST_URLCONF
+        return get_response(request)
+    return mw
+
+
+def _install_urlconfs() -> None:
+    import sys
+    import types
+    from django.conf import settings
+    from django.urls import include, path
+    if "vf_c19_urls_tenant" not in sys.modules:
+        m = types.ModuleType("vf_c19_urls_tenant")
+        m.urlpatterns = [path("tenant/", include("django_components.urls"))]
+        sys.modules[m.__name__] = m
+        m = types.ModuleType("vf_c19_urls_deep")
+        m.urlpatterns = [path("t/", include([path("eu/", include("django_components.urls"))]))]
+        sys.modules[m.__name__] = m
+    mw = f"{__name__}.urlconf_middleware"
+    if list(settings.MIDDLEWARE) != [mw]:
+        settings.MIDDLEWARE = [mw]
+
 
 # ================================================================= the real world of one history
 class World:
     """Real Component classes for an abstract class table `conf`, plus the driver state that is
     needed to *name* things (which HTML string belongs to which page); never used as an oracle."""
 
-    def __init__(self, conf: List[Dict[str, bool]]):
+    def __init__(self, conf: List[Dict[str, bool]], mech: int = 0):
         import sys
         import types
         from django_components import registry
+        _install_urlconfs()
         if GEN_MODULE not in sys.modules:      # generated classes live in a module object of their own
             mod = types.ModuleType(GEN_MODULE)
             mod.__file__ = None
@@ -94,7 +149,10 @@ class World:
         self.held: Dict[Tuple[int, ...], str] = {}
         self.wrappers: Dict[Any, Any] = {}
         self.names: List[str] = []
-        self.prefix: Optional[str] = None
+        self.url = DEFAULT_URL
+        self.mech = mech % 2       # how a URLconf is activated: 0 settings.ROOT_URLCONF, 1 per request
+        self._ovr: Any = None
+        self._apply_url()
         for c in range(1, len(conf) + 1):
             self.classes.append(self._make(c))
             self.registry.register(self.regname(c), self.classes[-1])
@@ -149,6 +207,57 @@ class World:
             except Exception:
                 pass
         self.names = []
+        self.url = DEFAULT_URL
+        self._apply_url()
+
+    # ---- the URL configuration
+    def set_url(self, u: str) -> None:
+        if u not in ALL_URLS:
+            raise MachineryError(f"unknown URL configuration {u!r}")
+        self.url = u
+        self._apply_url()
+
+    def _apply_url(self) -> None:
+        """Make self.url the active configuration of this thread, the way a request under it does
+        (the test client's handler resets the URLconf after every request and never sets the script
+        prefix, so this is repeated before every render and every request)."""
+        global _REQUEST_URLCONF
+        from django.conf import settings
+        from django.test import override_settings
+        from django.urls import set_script_prefix, set_urlconf
+        sp, mt = self.url.split("/")
+        mod = URL_MTS[mt][0]
+        set_script_prefix(URL_SPS[sp])
+        if self.mech == 0 or mt == "root":
+            _REQUEST_URLCONF = None
+            if settings.ROOT_URLCONF != mod:
+                if self._ovr is not None:
+                    self._ovr.disable()
+                    self._ovr = None
+                if settings.ROOT_URLCONF != mod:
+                    self._ovr = override_settings(ROOT_URLCONF=mod)
+                    self._ovr.enable()          # fires setting_changed: Django clears its URL caches
+            set_urlconf(None)
+        else:
+            if self._ovr is not None:
+                self._ovr.disable()
+                self._ovr = None
+            _REQUEST_URLCONF = mod
+            set_urlconf(mod)
+
+    def endpoint_prefix(self, u: Optional[str] = None) -> str:
+        """Documented location of the endpoint under configuration u (default: the active one)."""
+        sp, mt = (u or self.url).split("/")
+        return URL_SPS[sp] + URL_MTS[mt][1] + "components/cache/"
+
+    def locate(self, url: str) -> Tuple[str, str]:
+        """(configuration a path is addressed to, rest of the path) or ("", "")."""
+        p = url.split("?")[0]
+        for u in ALL_URLS:
+            pre = self.endpoint_prefix(u)
+            if p.startswith(pre):
+                return u, p[len(pre):]
+        return "", ""
 
     # ---- actions
     def children(self, page) -> str:
@@ -177,6 +286,7 @@ class World:
         from django.template import Context, Template
         from django_components import render_dependencies
         page = list(page)
+        self._apply_url()
         try:
             how = via % 4
             if how == 3 and not (len(page) == 1 and mode == "fragment"):
@@ -197,6 +307,7 @@ class World:
 
     def prerender(self, page) -> Dict[str, Any]:
         page = list(page)
+        self._apply_url()
         try:
             html = "".join(str(self.classes[c - 1].render(render_dependencies=False)) for c in page)
             self.held[tuple(page)] = html
@@ -209,6 +320,7 @@ class World:
         html = self.held[tuple(page)]
         if mode == "document":
             html = f"<html><head></head><body>{html}</body></html>"
+        self._apply_url()
         try:
             return {"err": False, "html": str(render_dependencies(html, type=mode))}
         except Exception as e:
@@ -238,7 +350,8 @@ class World:
         return 0
 
     def emitted(self, html: str) -> List[Dict[str, Any]]:
-        """Endpoint URLs announced by the HTML: [{"url", "chan", "entry": [c, kind, which]}]."""
+        """Endpoint URLs announced by the HTML: [{"url", "chan", "entry": [c, kind, which], "loc"}];
+        loc = the URL configuration the path is addressed to ("" if none of the known ones)."""
         from django.urls import Resolver404, resolve
         out = []
         for blob in re.findall(r'<script type="application/json" data-djc>(.*?)</script>', html, re.S):
@@ -250,8 +363,12 @@ class World:
                     urls = re.findall(r'(?:src|href)="([^"]+)"', txt) if is_tag else [txt]
                     for u in urls:
                         entry = None
+                        loc, tail = self.locate(u)
                         try:
-                            m = resolve(u.split("?")[0])
+                            if not loc:
+                                raise Resolver404()
+                            # the part below the mount point is parsed by the library's own routes
+                            m = resolve("/components/cache/" + tail, urlconf="django_components.urls")
                             if m.url_name == "components_cached_script":
                                 c = self.class_of_hash(m.kwargs.get("comp_cls_hash", ""))
                                 kind = m.kwargs.get("script_type", "?")
@@ -264,22 +381,11 @@ class World:
                                     which = "?"
                                 entry = [c, kind, which]
                         except Resolver404:
-                            if u.startswith("/components/"):
+                            if "/components/" in u and "//" not in u:
                                 entry = [0, "?", "?"]       # announced under the library's prefix, but no route
                         if entry is not None:
-                            out.append({"url": u, "chan": chan, "entry": entry})
+                            out.append({"url": u, "chan": chan, "entry": entry, "loc": loc})
         return out
-
-    def endpoint_prefix(self) -> str:
-        if self.prefix is None:
-            from django_components.dependencies import get_script_url
-            cls = self.classes[0]
-            u = get_script_url("js", cls, None)
-            tail = f"{cls._class_hash}.js"
-            # the documented location (docs/guides/devguides/dependency_mgmt.md) if the library's own
-            # URL builder does not produce the documented shape
-            self.prefix = u[: -len(tail)] if u.endswith(tail) else "/components/cache/"
-        return self.prefix
 
     def url_for(self, req: Dict[str, Any], salt: int = 0) -> Optional[str]:
         """Concrete path for an abstract request; None if it cannot be built yet (the valid input
@@ -312,13 +418,19 @@ class World:
                 mid = ".0a1b2c"
         else:
             mid = "." + i
-        return self.endpoint_prefix() + quote(h) + quote(mid) + "." + quote(kind)
+        return self.endpoint_prefix(req.get("at")) + quote(h) + quote(mid) + "." + quote(kind)
 
     def fetch(self, url: str, method: str = "GET", req: Optional[Dict[str, Any]] = None) -> Dict[str, Any]:
         """Answer of the endpoint projected to the abstract response record."""
+        self._apply_url()
+        sp = URL_SPS[self.url.split("/")[0]]
+        if not url.startswith(sp):
+            # outside the mount point: the front server never hands this request to the application
+            return {"st": 404, "c": 0, "k": "", "i": "", "v": 0, "ct": "", "unrouted": True}
+        extra = {"SCRIPT_NAME": sp.rstrip("/")} if sp != "/" else {}
         with warnings.catch_warnings():
             warnings.simplefilter("ignore")
-            r = self.client.generic(method, url)
+            r = self.client.generic(method, "/" + url[len(sp):], **extra)
         st = r.status_code
         out = {"st": st, "c": 0, "k": "", "i": "", "v": 0, "ct": (r.get("Content-Type") or "").split(";")[0].strip().lower()}
         if st != 200:
@@ -370,7 +482,8 @@ def dev_matches(o: Dict[str, Any], req: Dict[str, Any], devout: List[int]) -> bo
 
 
 def akey(a: Dict[str, Any], res: Optional[str] = None) -> str:
-    return f"{a['op']}|{','.join(map(str, a['page']))}|{a['mode']}|{a['c']}|{res if res is not None else a['res']}"
+    return (f"{a['op']}|{','.join(map(str, a['page']))}|{a['mode']}|{a['c']}|{res if res is not None else a['res']}"
+            f"|{a.get('u', '')}")
 
 
 def via_of(step: int, a: Dict[str, Any]) -> int:
@@ -385,6 +498,8 @@ def perform(w: World, a: Dict[str, Any], step: int) -> Dict[str, Any]:
         w.clear()
     elif op == "redefine":
         w.redefine(a["c"])
+    elif op == "seturl":
+        w.set_url(a["u"])
     elif op == "prerender":
         r = w.prerender(a["page"])
         if r["err"]:
@@ -424,7 +539,12 @@ def compare_step(w: World, a: Dict[str, Any], obs: Dict[str, Any], row: Dict[str
             return
         bad.append({"what": what, "req": req, "url": url, "observed": o, "admissible": t[4]})
 
+    if row.get("url", w.url) != w.url:
+        raise MachineryError(f"replay is under {w.url}, the exported history under {row.get('url')}")
     if a["op"] in ("render", "finish") and obs["res"] == "ok":
+        elsewhere = [[e["url"], e["loc"]] for e in obs["emitted"] if e["loc"] != row.get("eloc", DEFAULT_URL)]
+        if elsewhere:
+            bad.append({"what": "emitted_location", "expected": row.get("eloc", DEFAULT_URL), "observed": elsewhere})
         want = sorted(map(tuple, row["emitted"]))
         got = sorted(tuple(e["entry"]) for e in obs["emitted"])
         if sorted(set(got)) != want:
@@ -473,7 +593,7 @@ _KEEP_EXPORTS = False
 def walk(rows: Rows, acts: List[Dict[str, Any]], checked: set, salt: int) -> Dict[str, Any]:
     """Replay one maximal history; every prefix is compared with its exported row (once)."""
     res = {"viol": [], "known": [], "steps": 0, "checked": 0, "fetched": 0, "nontrivial": 0}
-    w = World(rows.conf)
+    w = World(rows.conf, mech=salt)
     w.clear()
     key: Tuple[str, ...] = ()
     done: List[Dict[str, Any]] = []
@@ -505,14 +625,14 @@ def walk(rows: Rows, acts: List[Dict[str, Any]], checked: set, salt: int) -> Dic
             case_hist = done + [dict(a, res=obs["res"])]
             if chosen is None:
                 if first_bad is None:
-                    res["viol"].append(({"kind": "history", "cfg": rows.name, "conf": rows.conf, "hist": case_hist, "row": None},
+                    res["viol"].append(({"kind": "history", "cfg": rows.name, "mech": salt % 2, "conf": rows.conf, "hist": case_hist, "row": None},
                                         {"what": "outcome-not-admitted", "observed_res": obs["res"], "exc": obs["exc"]}, None))
                 else:
-                    res["viol"].append(({"kind": "history", "cfg": rows.name, "conf": rows.conf, "hist": case_hist,
+                    res["viol"].append(({"kind": "history", "cfg": rows.name, "mech": salt % 2, "conf": rows.conf, "hist": case_hist,
                                          "row": first_bad[1]}, {"mismatches": first_bad[2][:6], "exc": obs["exc"]}, None))
                 break
             k2, row, devs, r_, fresh = chosen
-            case = {"kind": "history", "cfg": rows.name, "conf": rows.conf, "hist": done + [dict(a, res=r_)], "row": row}
+            case = {"kind": "history", "cfg": rows.name, "mech": salt % 2, "conf": rows.conf, "hist": done + [dict(a, res=r_)], "row": row}
             if fresh:
                 checked.add(k2)
                 res["checked"] += 1
@@ -568,13 +688,13 @@ def tla_pages(pages) -> str:
 
 
 def mc_cfg(path, conf, pages, modes, maxlen, ext=(), maxver=1, devs=(), kinds=("js", "css"),
-           inputs=("none", "vars"), methods=("GET",), export=True) -> None:
+           inputs=("none", "vars"), methods=("GET",), urls=(DEFAULT_URL,), export=True) -> None:
     path.write_text(
         "SPECIFICATION MCSpec\nCONSTANTS\n"
         f"  NC = {len(conf)}\n  ConfNum = {conf_num(conf)}\n  Pages = {tla_pages(pages)}\n"
         f"  Modes = {tla_str_set(modes)}\n  MaxLen = {maxlen}\n  Ext = {tla_str_set(ext)}\n  MaxVer = {maxver}\n"
         f"  Devs = {tla_str_set(devs)}\n  ReqKinds = {tla_str_set(kinds)}\n  ReqInputs = {tla_str_set(inputs)}\n"
-        f"  ReqMethods = {tla_str_set(methods)}\n"
+        f"  ReqMethods = {tla_str_set(methods)}\n  UrlCfgs = {tla_str_set(urls)}\n"
         "INVARIANT InvEmittedAreServed\nINVARIANT InvMustServeDetermined\nINVARIANT InvAnswersSane\n"
         "INVARIANT InvKeptCoversCache\n" + ("INVARIANT Export\n" if export else "") +
         "PROPERTY MCRenderRecaches\nPROPERTY MCOnlyClearDrops\n")
@@ -614,6 +734,10 @@ def configurations(tier: str) -> List[Dict[str, Any]]:
         # extension: class redefined under the same import path
         dict(name="D", conf=[cf(js=True, css=True), cf(js=True, vars=True)], pages=[[1, 2]] if q else [[1], [2]],
              modes=BOTH, maxlen=4 if q else 5, ext=["redef"], maxver=3),
+        # the URL configuration (script prefix x URLconf) changes between the renders of one process:
+        # prefix only, URLconf only, both at once, and back
+        dict(name="U", conf=[cf(js=True, css=True), cf(js=True, vars=True)], pages=[[1, 2]], modes=BOTH,
+             maxlen=4 if q else 5, ext=["url"], urls=["none/root", "app/root", "none/tenant", "app/deep"]),
     ]
     return out
 
@@ -687,7 +811,7 @@ def record_trace(rnd: random.Random, tid: int, length: int, ext: bool) -> Dict[s
                        vars=shape != "neither" and rnd.random() < 0.3))
     if not any(c["js"] or c["css"] for c in conf):
         conf[0] = cf(js=True, css=True)
-    w = World(conf)
+    w = World(conf, mech=rnd.randrange(2))
     w.clear()
     events: List[Dict[str, Any]] = []
     try:
@@ -705,14 +829,22 @@ def record_trace(rnd: random.Random, tid: int, length: int, ext: bool) -> Dict[s
             elif x < 0.44:
                 w.clear()
                 events.append({"op": "clear"})
+            elif x < 0.51:
+                # another script prefix and / or another URLconf from now on
+                u = rnd.choice([v for v in ALL_URLS if v != w.url])
+                w.set_url(u)
+                events.append({"op": "seturl", "u": u})
             elif x < 0.80 or not ext:
                 c = rnd.choice([0] + list(range(1, n + 1)) * 3)
+                # a path of the endpoint under the active configuration (mostly) or under another one
+                at = w.url if rnd.random() < 0.85 else rnd.choice(ALL_URLS)
                 req = {"c": c, "k": rnd.choice(REQ_KINDS), "i": rnd.choice(REQ_INPUTS),
-                       "m": rnd.choice(["GET"] * 6 + METHODS[1:])}
+                       "m": rnd.choice(["GET"] * 6 + METHODS[1:]), "at": at}
                 url = w.url_for(req, rnd.randrange(100))
                 if url is None:
                     continue
-                events.append({"op": "get", "req": req, "out": _noextra(w.fetch(url, req["m"], req)), "url": url})
+                events.append({"op": "get", "req": req, "out": _noextra(w.fetch(url, req["m"], req)), "url": url,
+                               "under": w.url})
             elif x < 0.87:
                 if not plain:
                     continue
@@ -756,6 +888,7 @@ def _noextra(o: Dict[str, Any]) -> Dict[str, Any]:
 def _emit_event(a: Dict[str, Any], obs: Dict[str, Any]) -> Dict[str, Any]:
     return {"op": a["op"], "page": a["page"], "mode": a["mode"], "err": obs["res"] != "ok",
             "emitted": [e["entry"] for e in obs["emitted"]], "chan": [e["chan"] for e in obs["emitted"]],
+            "loc": [e["loc"] for e in obs["emitted"]],
             "fetch": [_noextra(e["out"]) for e in obs["emitted"]], "urls": [e["url"] for e in obs["emitted"]],
             "exc": obs.get("exc") or ""}
 
@@ -814,10 +947,13 @@ def validate_traces(chk: Check, ntraces: int, length: int, ext: bool, tag: str, 
                       {"clauses": why["clauses"], "event": t["events"][why["event"] - 1]})
     nev = 0
     for t in traces:
-        chk.count([t["conf"], [(e["op"], e.get("page"), e.get("mode"), e.get("req")) for e in t["events"]]])
+        chk.count([t["conf"], [(e["op"], e.get("page"), e.get("mode"), e.get("req"), e.get("u")) for e in t["events"]]])
         nev += len(t["events"])
         chk.add("trace_urls_fetched", sum(len(e.get("emitted", [])) for e in t["events"]))
         chk.add("trace_gets", sum(1 for e in t["events"] if e["op"] == "get"))
+        chk.add("trace_url_configuration_changes", sum(1 for e in t["events"] if e["op"] == "seturl"))
+        chk.add("trace_urls_emitted_off_default_configuration",
+                sum(sum(1 for x in e.get("loc", []) if x != DEFAULT_URL) for e in t["events"]))
     chk.add("traces_validated_against_impl", len(traces))
     chk.add("trace_events", nev)
     chk.add("trace_states", r.distinct)
@@ -844,7 +980,7 @@ def corrupted_traces() -> int:
         e["fetch"][0].update(st=404, c=0, k="", i="", v=0, ct="text/html")
 
     def drop(e):
-        e["emitted"].pop(); e["chan"].pop(); e["fetch"].pop()
+        e["emitted"].pop(); e["chan"].pop(); e["fetch"].pop(); e["loc"].pop()
 
     muts = [
         ("emitted-url-answers-404", "emitted_served", is_render, to404),
@@ -857,6 +993,11 @@ def corrupted_traces() -> int:
         ("other-kind-served", "emitted_served", is_render,
          lambda e: e["fetch"][0].update(k="css" if e["fetch"][0]["k"] == "js" else "js")),
         ("render-raised", "render_error", is_render, lambda e: e.update(err=True)),
+        ("url-addressed-to-another-configuration", "emitted_location", is_render,
+         lambda e: e["loc"].__setitem__(0, "app/tenant" if e["loc"][0] != "app/tenant" else "none/root")),
+        ("other-configurations-path-answers-200", "answer",
+         lambda e: e["op"] == "get" and e["req"]["at"] != e["under"] and e["req"]["m"] == "GET" and e["req"]["c"] > 0,
+         lambda e: e["out"].update(st=200, c=e["req"]["c"], k="js", i="main", v=1, ct="text/javascript")),
         ("post-answers-200", "answer", lambda e: e["op"] == "get" and e["req"]["m"] == "POST",
          lambda e: e["out"].update(st=200, c=max(1, e["req"]["c"]), k="js", i="main", v=1, ct="text/javascript")),
         ("unknown-hash-answers-500", "answer", lambda e: e["op"] == "get" and e["req"]["c"] == 0 and e["req"]["m"] == "GET",
@@ -905,6 +1046,7 @@ def core(chk: Check, tier: str, procs: int, small: bool = False) -> None:
     if small:       # selftest body: same machinery, reduced sizes, one process
         model_check_and_replay(chk, "quick", 1, only=["H1"], limit=250)
         model_check_and_replay(chk, "quick", 1, only=["H2", "R", "S", "D"], limit=60)
+        model_check_and_replay(chk, "quick", 1, only=["U"], limit=120)
         validate_traces(chk, 10, 25, ext=False, tag="core")
         validate_traces(chk, 6, 25, ext=True, tag="ext")
         validate_traces(chk, 4, 25, ext=True, tag="backend", backend="default")
@@ -926,7 +1068,8 @@ def run(tier: str) -> int:
         raise MachineryError("no emitted URL was ever fetched - the binding is vacuous")
     chk.cov["exhaustive"] = True
     chk.cov["rule"] = ("every history (sequence of renders in document/fragment mode, media-cache clears, and in the "
-                       "extension configurations pre-render/finish and class redefinition) of length <= MaxLen over the "
+                       "extension configurations pre-render/finish, class redefinition, changes of the URL "
+                       "configuration = script prefix x URLconf) of length <= MaxLen over the "
                        "listed pages is one TLC state, exported and replayed on real Component classes; after every "
                        "prefix all emitted URLs and the whole request table are fetched with django.test.Client and "
                        "compared with ScriptEndpoint!Adm.  Non-trivial = the last action emits at least one URL; "
@@ -938,6 +1081,9 @@ def run(tier: str) -> int:
         "non-GET on a path that is 404 for GET: 404 or 405",
         "document pages contain <head>/<body> or the placeholder tags; ASCII class names; LocMemCache default "
         "backend (COMPONENTS.cache unset); evictions during a single render call not modelled",
+        "the endpoint lives at <script prefix><mount point of django_components.urls>components/cache/ (docs); a path "
+        "addressed to another URL configuration than the active one is 404; a path outside SCRIPT_NAME never reaches "
+        "the application (the harness answers 404 for it)",
         "class redefinition is emulated in-process by a second class object with the same __module__ and "
         "__qualname__ (what a module reload, or a redeploy against a persistent cache backend, produces)",
     ]
@@ -951,7 +1097,7 @@ def replay(path: str) -> int:
     d = json.load(open(path))
     case = d["case"]
     if case.get("kind") == "history":
-        w = World(case["conf"])
+        w = World(case["conf"], mech=case.get("mech", 0))
         w.clear()
         bad: List[Any] = []
         try:
@@ -1051,6 +1197,39 @@ def selftest(tier: str) -> int:
         orig = dep.get_script_url
         return patch(dep, "get_script_url", lambda *a, **k: orig(*a, **k) + "/")
 
+    def url_memoised_per_script():
+        # "the URL is determined by hash, kind and input hash": reverse() once per script
+        orig = dep.get_script_url
+        memo: Dict[Any, str] = {}
+
+        def f(script_type, comp_cls, input_hash):
+            k = (comp_cls._class_hash, script_type, input_hash)
+            if k not in memo:
+                memo[k] = orig(script_type, comp_cls, input_hash)
+            return memo[k]
+        return patch(dep, "get_script_url", f)
+
+    def url_ignores_script_prefix():
+        from django.urls import get_script_prefix
+        orig = dep.get_script_url
+
+        def f(*a, **k):
+            u = orig(*a, **k)
+            sp = get_script_prefix()
+            return "/" + u[len(sp):] if u.startswith(sp) else u
+        return patch(dep, "get_script_url", f)
+
+    def url_reversed_against_root_urlconf():
+        from django.conf import settings
+        from django.urls import reverse
+
+        def f(script_type, comp_cls, input_hash):
+            kw = {"comp_cls_hash": comp_cls._class_hash, "script_type": script_type}
+            if input_hash is not None:
+                kw["input_hash"] = input_hash
+            return reverse(dep.CACHE_ENDPOINT_NAME, urlconf=settings.ROOT_URLCONF, kwargs=kw)
+        return patch(dep, "get_script_url", f)
+
     def key_without_kind():
         return patch(dep, "_gen_cache_key", lambda h, t, i: f"__components:{h}" + (f":{i}" if i else ""))
 
@@ -1132,6 +1311,9 @@ def selftest(tier: str) -> int:
         ("css-cached-only-when-class-has-js", css_needs_js),
         ("css-served-as-text/plain", wrong_content_type),
         ("emitted-url-has-trailing-slash", url_trailing_slash),
+        ("script-url-memoised-per-(hash,kind,input)", url_memoised_per_script),
+        ("script-url-ignores-script-prefix", url_ignores_script_prefix),
+        ("script-url-reversed-against-settings.ROOT_URLCONF", url_reversed_against_root_urlconf),
         ("cache-key-without-kind", key_without_kind),
         ("cache-key-with-truncated-class-hash", key_without_full_hash),
         ("view-ignores-method", view_ignores_method),
